@@ -6,7 +6,7 @@
    nonce / ACR / auth-age, and a present at_hash is the left-half hash of the
    access token.  Conversely a correctly signed token meeting all of that with
    more than clock-rounding margin is accepted, claims unchanged." *)
-From OIDC Require Import Lib Base64 C02_Jws C01_Verifier C02_Ground.
+From OIDC Require Export Lib Base64 C02_Jws C01_Verifier C02_Ground.
 
 (* access token and its real SHA-256 / SHA-384 / SHA-512 digests (hash oracle) *)
 Record atoken := mkAT { at_value : string; at_256 : list nat; at_384 : list nat; at_512 : list nat }.
